@@ -699,8 +699,10 @@ def run(tier, chk):
         groups.append(("a':3..8 stores, interleaved loads, bases=%s (-simulate)" % ','.join(bases), sim_hists(n, chk.seed, bases, 8, 4, chk)))
     # (a64/a128) the property says "of any width": the 64-bit cells of x87/MMX operands and the 128-bit cells of SSE operands
     # next to the integer widths (the model and the judge are width-generic; only the generator constants differ)
-    woffs64 = [0, 1, 4, 7, 8] if quick else list(range(10))
-    woffs128 = [0, 4, 8, 12, 15] if quick else [0, 1, 4, 7, 8, 9, 12, 15, 16]
+    # (the thorough tier adds symbolic stored values and two offsets; every offset 0..16 with both value kinds is ~700k histories
+    # and does not fit the memory of one run)
+    woffs64 = [0, 1, 4, 7, 8] if quick else [0, 1, 4, 7, 8, 9]
+    woffs128 = [0, 4, 8, 12, 15] if quick else [0, 4, 8, 12, 15, 16]
     for base in ('c', 's'):
         groups.append(('a64:<=2 stores+1 load, widths 8/16/32/64, base=%s, offsets=%s (exhaustive)' % (base, woffs64),
                        gen_hists(2, woffs64, base, chk, ws=(8, 16, 32, 64), vks=('c',) if quick else ('c', 's'))))
